@@ -120,22 +120,24 @@ def run(tier, seed):
             vals = [x for x in (r["nw"] if r["mode"] == "node" else r["ew"]) if x != vlib.NONE]
             maxf = max(vals) if vals else 0
             k = r["k"] if r["k"] != vlib.NONE else r["k_model"]
-            for cap in (-1, k * maxf):
+            for j, (cap, caps) in enumerate(((-1, []), (k * maxf, []), (-1, r.get("repcaps_obs") or []))):
+                if j == 2 and (not caps or r["mode"] != "edge"):
+                    continue
                 a = dict(r)
-                a.update({"id": r["id"] * 10 + (0 if cap < 0 else 1), "want": "any", "k": k, "tol": 0, "obj": 0,
-                          "acccap": 2 * k * maxf + 2, "maxslack": k * maxf, "prodcap": cap, "repcaps": [], "_src": r["id"]})
+                a.update({"id": r["id"] * 10 + j, "want": "any", "k": k, "tol": 0, "obj": 0, "_variant": j,
+                          "acccap": 2 * k * maxf + 2, "maxslack": k * maxf, "prodcap": cap, "repcaps": caps, "_src": r["id"]})
                 probe.append(a)
     if probe:
         wit = P.adversary("Adv_Fit", probe, res)
         byid = {r["id"]: r for r in recs}
         for a in probe:
-            if a["prodcap"] < 0:
-                byid[a["_src"]]["feasible_solution_exists"] = a["id"] in wit
-            else:
-                byid[a["_src"]]["feasible_under_product_bound"] = a["id"] in wit
+            key = ("feasible_solution_exists", "feasible_under_product_bound", "feasible_under_repetition_caps")[a["_variant"]]
+            byid[a["_src"]][key] = a["id"] in wit
         for r in recs:
             if "feasible_solution_exists" in r:
                 r["needs_product_above_k_maxf"] = bool(r["feasible_solution_exists"] and not r.get("feasible_under_product_bound"))
+                if "feasible_under_repetition_caps" in r:
+                    r["needs_repetitions_above_cap"] = bool(r["feasible_solution_exists"] and not r["feasible_under_repetition_caps"])
     vlib.validate_groups([dict(r) for r in recs], PROP, res)
     for r in recs:
         if r["solved"]:
@@ -173,21 +175,23 @@ def replay(path, seed):
             vals = [x for x in (r["nw"] if r["mode"] == "node" else r["ew"]) if x != vlib.NONE]
             maxf = max(vals) if vals else 0
             k = r["k"] if r["k"] != vlib.NONE else r["k_model"]
-            for cap in (-1, k * maxf):
+            for j, (cap, caps) in enumerate(((-1, []), (k * maxf, []), (-1, r.get("repcaps_obs") or []))):
+                if j == 2 and (not caps or r["mode"] != "edge"):
+                    continue
                 a = dict(r)
-                a.update({"id": r["id"] * 10 + (0 if cap < 0 else 1), "want": "any", "k": k, "tol": 0, "obj": 0,
-                          "acccap": 2 * k * maxf + 2, "maxslack": k * maxf, "prodcap": cap, "repcaps": [], "_src": r["id"]})
+                a.update({"id": r["id"] * 10 + j, "want": "any", "k": k, "tol": 0, "obj": 0, "_variant": j,
+                          "acccap": 2 * k * maxf + 2, "maxslack": k * maxf, "prodcap": cap, "repcaps": caps, "_src": r["id"]})
                 probe.append(a)
     if probe:
         wit = P.adversary("Adv_Fit", probe, res)
         byid = {r["id"]: r for r in recs}
         for a in probe:
-            if a["prodcap"] < 0:
-                byid[a["_src"]]["feasible_solution_exists"] = a["id"] in wit
-            else:
-                byid[a["_src"]]["feasible_under_product_bound"] = a["id"] in wit
+            key = ("feasible_solution_exists", "feasible_under_product_bound", "feasible_under_repetition_caps")[a["_variant"]]
+            byid[a["_src"]][key] = a["id"] in wit
         for r in recs:
             if "feasible_solution_exists" in r:
                 r["needs_product_above_k_maxf"] = bool(r["feasible_solution_exists"] and not r.get("feasible_under_product_bound"))
+                if "feasible_under_repetition_caps" in r:
+                    r["needs_repetitions_above_cap"] = bool(r["feasible_solution_exists"] and not r["feasible_under_repetition_caps"])
     print(json.dumps(P.brief(recs[0])))
     return 1 if res.violations else 0
